@@ -190,6 +190,7 @@ func rowsKV(rows [][2]uint64) [][]any {
 }
 
 type c12Drv struct {
+	inPlace  bool   // the next run re-uses the pooled histogram with its counts zeroed in place
 	kept     []byte // the previous MarshalJSON rendering, and its text at the time
 	keptText string
 	pooled   *vegeta.Histogram
@@ -268,6 +269,15 @@ func (d *c12Drv) run(bounds []uint64, lats []uint64, expect []int) {
 		h = d.pooled
 		h.Buckets, h.Counts, h.Total = toDurs(bounds), h.Counts[:0], 0
 	}
+	if d.inPlace && d.pooled != nil && len(d.pooled.Counts) == len(bounds) {
+		// ... or, for a new list of as many bounds, zeroed in place
+		h = d.pooled
+		for i := range h.Counts {
+			h.Counts[i] = 0
+		}
+		h.Buckets, h.Total = toDurs(bounds), 0
+	}
+	d.inPlace = false
 	d.pooled = h
 	d.render(h) // "also when no result was added"
 	for i, lat := range lats {
@@ -410,7 +420,22 @@ func TestDrv_C12(t *testing.T) {
 				lats[i] = b + uint64(r.Int63n(1000))
 			}
 		}
+		k := len(bounds) / 2
+		if c%4 == 1 && k >= 1 {
+			lats[len(lats)-1] = bounds[k] + 1 // the last result of this round lies just above a bound
+		}
 		d.run(bounds, lats, nil)
+		if c%4 == 1 && k >= 1 {
+			// the same histogram value once more, for another list of as many bounds (the upper ones moved up) and the same
+			// latencies, the last one first: its counts zeroed in place.  What was just above a bound is now just below it
+			b2, l2 := append([]uint64{}, bounds...), append([]uint64{}, lats...)
+			for i := k; i < len(b2); i++ {
+				b2[i] += 5 + uint64(i)
+			}
+			l2[0], l2[len(l2)-1] = l2[len(l2)-1], l2[0]
+			d.inPlace = true
+			d.run(b2, l2, nil)
+		}
 		if c < 2 {
 			d.samples = append(d.samples, KV{"bounds": bounds, "first_latencies": lats[:5]})
 		}
